@@ -112,7 +112,7 @@ mod verif_c13s {
     h!(c13q_soes_lut_k2_n2, 6, to_lut_k::<2>(2));
     h!(c13q_soes_lut_k3_n3, 10, to_lut_k::<3>(3));
     h!(c13q_soes_lut_k4_n4, 18, to_lut_k::<4>(4));
-    h!(c13t_soes_or_k4k4_n4, 7, or_k::<4, 4>(4));
+    h!(c13t_soes_or_k4k4_n4, 12, or_k::<4, 4>(4));
     h!(c13t_soes_or_k3k2_n5, 7, or_k::<3, 2>(5));
     h!(c13t_soes_lut_k4_n5, 34, to_lut_k::<4>(5));
     h!(c13t_soes_value_k4_n5, 7, value_k::<4>(5));
